@@ -28,7 +28,10 @@ class C01(Spec):
                   "implementation against an abstract map per root.")
     level_note = ("load_save is partial: it assumes `Consistent` (no key receives two different records) instead of deriving "
                   "it from collision-freeness (full statement kept as LoadSaveFull); the end-to-end chain Store.Set histories -> "
-                  "reads at every old root is carried by the differential run and the predicate. remove() is not modelled (Store.Del is 'not support'). "
+                  "reads at every old root is carried by the differential run and the predicate. Node.remove (Tree.Remove / "
+                  "DelKVPair; Store.Del is 'not support') is modelled with the newKey propagation and rebalancing and tied "
+                  "differentially (roots, removed values, reads, iteration, old roots) in a quarter of the batches — no Lean "
+                  "theorem about remove (Store.Del is 'not support'). "
                   "int32 height/size modelled as Nat; loading is eager in the model, lazy in Go (same on closed databases).")
     assumptions = (
         "goleveldb behaves as a key/value map with atomic batches (C06's claim)",
